@@ -15,6 +15,18 @@ from pyvc.xmlnative import concretize_vault, gen_vault
 
 P_ROW = {"C01", "C02", "C07"}
 PL_EMPTY = z3.Int("pl.empty")           # content of a freshly constructed empty Cell()
+_NATIVE_EMPTY = []
+
+
+def EMPTY(view):
+    """content of an empty Cell(): the model constant, or natively the payload of a real Cell()"""
+    if isinstance(view, (VaultView, WrapView)):
+        return PL_EMPTY
+    if not _NATIVE_EMPTY:
+        from odfdo.cell import Cell
+        from pyvc.xmlnative import lx, payload
+        _NATIVE_EMPTY.append(payload(lx(Cell()), "cells"))
+    return _NATIVE_EMPTY[0]
 
 
 def _row():
@@ -149,7 +161,7 @@ contract(
             1 if a.cell is None else a.cell.rep)),
         Clause("view", {"C01", "C02"}, lambda a, r, p: pointwise(
             a.self, p.self, "cells",
-            lambda pos, old, len0: S.If(pos < vlen(a.self, "cells"), old, PL_EMPTY if a.cell is None else a.cell.pl))),
+            lambda pos, old, len0: S.If(pos < vlen(a.self, "cells"), old, EMPTY(a.self) if a.cell is None else a.cell.pl))),
         Clause("stamp", {"C08"}, lambda a, r, p: S.And(r.x == vlen(p.self, "cells") - 1, S.same_or_eq(r.y, a.self.y))),
         Clause("arg-untouched", {"C08", "C10"}, lambda a, r, p: S.Or(a.cell is None, lambda: S.And(
             p.cell.rep == a.cell.rep, p.cell.pl == a.cell.pl))),
@@ -168,10 +180,10 @@ def _norm_x(a):
 def _set_cell_view(a, r, p):
     w0 = vlen(a.self, "cells")
     rep = 1 if a.cell is None else a.cell.rep
-    pl = PL_EMPTY if a.cell is None else a.cell.pl
+    pl = EMPTY(a.self) if a.cell is None else a.cell.pl
     x = a.x
     return pointwise(a.self, p.self, "cells",
-                     lambda pos, old, len0: S.If(S.And(x <= pos, pos < x + rep), pl, S.If(pos < w0, old, PL_EMPTY)))
+                     lambda pos, old, len0: S.If(S.And(x <= pos, pos < x + rep), pl, S.If(pos < w0, old, EMPTY(a.self))))
 
 
 def _set_cell_len(a, r, p):
@@ -208,12 +220,12 @@ contract(
 def _ins_cell_view(a, r, p):
     w0 = vlen(a.self, "cells")
     rep = 1 if a.cell is None else a.cell.rep
-    pl = PL_EMPTY if a.cell is None else a.cell.pl
+    pl = EMPTY(a.self) if a.cell is None else a.cell.pl
     x = a.x
     # inside the row: later cells shift right by rep; at or beyond the end: padded with empty cells
     return pointwise(a.self, p.self, "cells",
                      lambda pos, old, len0: S.If(S.And(x <= pos, pos < x + rep), pl,
-                                                 S.If(S.And(pos >= w0, x >= w0), PL_EMPTY, old)),
+                                                 S.If(S.And(pos >= w0, x >= w0), EMPTY(a.self), old)),
                      src=lambda pos: S.If(S.Or(pos < x, x >= w0), pos, pos - rep))
 
 
@@ -303,7 +315,7 @@ contract(
     inline={"odfdo.row:Row._get_cell2_base"},
     ensures=[
         Clause("content", {"C08", "C01", "C02"}, lambda a, r, p: S.If(
-            a.x >= vlen(a.self, "cells"), lambda: r.pl == PL_EMPTY, lambda: _content_is(a.self, "_rmap", a.x, r.pl))),
+            a.x >= vlen(a.self, "cells"), lambda: r.pl == EMPTY(a.self), lambda: _content_is(a.self, "_rmap", a.x, r.pl))),
         Clause("detached-copy", {"C08", "C10"}, lambda a, r, p: S.Implies(
             S.Or(a.clone, a.x >= vlen(a.self, "cells")), lambda: is_fresh(r, a.self))),
         Clause("frame", {"C08", "C15"}, lambda a, r, p: S.And(_xml_unchanged(a.self, p.self), _map_unchanged(a.self, p.self))),
@@ -319,7 +331,7 @@ contract(
     inline={"odfdo.row:Row._get_cell2_base", "odfdo.row:Row._get_cell2"},
     ensures=[
         Clause("content", {"C08", "C01", "C02"}, lambda a, r, p: S.If(
-            a.x >= vlen(a.self, "cells"), lambda: r.pl == PL_EMPTY, lambda: _content_is(a.self, "_rmap", a.x, r.pl))),
+            a.x >= vlen(a.self, "cells"), lambda: r.pl == EMPTY(a.self), lambda: _content_is(a.self, "_rmap", a.x, r.pl))),
         Clause("stamp", {"C08"}, lambda a, r, p: S.And(S.same_or_eq(r.x, a.x), S.same_or_eq(r.y, a.self.y))),
         Clause("detached-copy", {"C08", "C10"}, lambda a, r, p: S.Implies(
             S.Or(a.clone, a.x >= vlen(a.self, "cells")), lambda: is_fresh(r, a.self))),
